@@ -1,9 +1,11 @@
 use crate::driver::Prop;
 
 pub mod c01;
+pub mod c04;
+pub mod c05;
 
 pub fn all() -> Vec<Box<dyn Prop>> {
-    vec![Box::new(c01::C01)]
+    vec![Box::new(c01::C01), Box::new(c04::C04), Box::new(c05::C05)]
 }
 
 pub fn find(id: &str) -> Option<Box<dyn Prop>> {
